@@ -312,6 +312,9 @@ func (store ItemVarStore) GetDelta(index VariationStoreIndex, coords []Coord) fl
 func (vr VariationRegion) Evaluate(coords []Coord) float32 {
 	v := float32(1)
 	for axis, coord := range coords {
+		if axis >= len(vr.RegionAxes) { // the region has fewer axes than the font
+			break
+		}
 		factor := vr.RegionAxes[axis].evaluate(coord)
 		v *= factor
 	}
